@@ -123,6 +123,9 @@ class BufferingEDXMLEventMerger(EDXMLPushFilter):
         self.__hash_buffer = {}
 
     def _close(self):
+        if self.__buffer_size > 0:
+            # Output the events that are still waiting in the buffer.
+            self._flush_buffer()
         super()._close()
         log.info(f"Processed {self.__num_processed} events, merged {self.__num_merged}.")
 
